@@ -315,7 +315,12 @@ def run_op(b: Built, i: int, op: dict, source: str = 'inline') -> None:
             payload = bytes.fromhex(payload['$bytes'])
             if op.get('as') == 'bytearray':
                 payload = bytearray(payload)
-        b.handles[i] = lf.add_no_format_frame_data(b.handles[op['target']], payload)
+        if op.get('via') == 'data-attribute':
+            # the documented other way: the record is created first, its payload put into the `data` attribute afterwards
+            b.handles[i] = lf.add_no_format_frame_data(b.handles[op['target']], b'' if isinstance(payload, (bytes, bytearray)) else '')
+            b.handles[i].data = payload
+        else:
+            b.handles[i] = lf.add_no_format_frame_data(b.handles[op['target']], payload)
         b.payload_refs[i] = payload          # the caller's own object (a bytearray can be re-used by the caller afterwards)
     elif kind == 'assign':
         tgt = b.handles[op['target']]
